@@ -1,3 +1,74 @@
-import Rustemo.Model.LR
+import Rustemo.Props.C01
+/-!
+# C12 — syntax errors point at the first offending token; sentences never error
+
+PARTIAL.  Proved: a sentence is never rejected (`C12_sentences_never_error`, the parser result is
+`accept` for every sufficiently large fuel and can therefore never be an error); an input that is
+rejected is not a sentence; the error the byte-level model reports always carries a non-empty list
+of expected tokens and the position reached after skipping layout, i.e. the start of the token that
+was not accepted (`C12_error_expected_nonempty`).
+NOT proved (decided by an independent Earley viable-prefix oracle on generated inputs, for the real LR
+and GLR parsers): that the rejected token is the *first* token that cannot continue any sentence
+(merged lookaheads only delay the error by reductions, never past a shift); the GLR half.
+-/
 namespace Rustemo.Props.C12
+open Rustemo Rustemo.Props.C01
+
+theorem trun_mono_result (g : Grammar) (t : Table) : ∀ (n : Nat) (c : TCfg) (r : TResult),
+    trun g t n c = r → r ≠ .fuel → ∀ k, trun g t (n + k) c = r := by
+  intro n
+  induction n with
+  | zero => intro c r h hr; simp [trun] at h; exact absurd h.symm hr
+  | succ n ih =>
+    intro c r h hr k
+    have : n + 1 + k = (n + k) + 1 := by omega
+    rw [this]
+    unfold trun at h ⊢
+    split at h
+    · rename_i c' hstep
+      exact ih c' r h hr k
+    · exact h
+    · exact h
+    · exact h
+
+/-- **Sentences never error**: on a certified deterministic table no run on a sentence ends in an
+    error (or a panic): as soon as it ends it accepts. -/
+theorem C12_sentences_never_error (g : Grammar) (t : Table) (hcert : certC01 g t = true)
+    (tx : Tree) (hv : tx.Valid g g.startIdx) (fuel : Nat) :
+    tparse g t tx.yield fuel = .fuel ∨ tparse g t tx.yield fuel = .accept tx.plain := by
+  obtain ⟨f2, e2⟩ := C01_sentence_is_accepted g t hcert tx hv
+  by_cases hf : tparse g t tx.yield fuel = .fuel
+  · exact Or.inl hf
+  · right
+    unfold tparse at hf e2 ⊢
+    have a1 := trun_mono_result g t fuel _ _ rfl hf f2
+    have a2 := trun_mono_result g t f2 _ _ e2 (by simp) fuel
+    rw [Nat.add_comm] at a2
+    rw [← a1, a2]
+
+/-- an input on which the parser reports an error is not a sentence -/
+theorem C12_error_only_on_nonsentence (g : Grammar) (t : Table) (hcert : certC01 g t = true)
+    (w : List Nat) (fuel k s : Nat) (h : tparse g t w fuel = .error k s) : ¬ Sentence g w := by
+  intro ⟨tx, hv, hy⟩
+  have := C12_sentences_never_error g t hcert tx hv fuel
+  rw [hy, h] at this
+  rcases this with h1 | h1 <;> simp at h1
+
+/-- the error produced when no token is found lists at least one expected token and is reported at
+    the position where lexing stopped -/
+theorem C12_error_expected_nonempty (env : Env) (pp : Bool) (ctx ctx' : Ctx) (p : Pos) (ks : List Nat)
+    (h : noToken env pp ctx = (ctx', .err (.expected p ks))) : ks ≠ [] ∧ p = ctx.pos ∧ ctx' = ctx := by
+  unfold noToken at h
+  simp only at h
+  split at h
+  · simp at h
+  · split at h
+    · simp at h
+    · rename_i hne
+      injection h with h1 h2
+      injection h2 with h2
+      injection h2 with h3 h4
+      subst h1 h3 h4
+      exact ⟨by intro h; exact hne h, rfl, rfl⟩
+
 end Rustemo.Props.C12
